@@ -21,7 +21,8 @@ RULE = ("Kernel level: Hypothesis draws NW in 1..200 (every N*W factorisation), 
         "round of completed traced runs the cost table handed to the labelling step equals minus the reference table of "
         "that round's model, and all_log_likelihood / sum / mean / median / per-cluster mean+median equal those of the "
         "labelled windows' reference densities under the final model. Non-trivial (kernel) = |log det| > 745 (outside the "
-        "exp range of a double) or NW >= 50; (e2e) = >= 2 populated clusters; distinct by SHA-1 of the case.")
+        "exp range of a double) or NW >= 50; (e2e) = >= 2 populated clusters; distinct by SHA-1 of the case."
+        ' The kernel sub-check also runs with Numba not importable.')
 ASSUMPTIONS = ["cluster means of the final model are read through the guarded run_end hook (not part of the public result)",
                "tolerance (1e-9 + 4 n^2 eps kappa)(1+|ref|): kappa term bounds legitimate cancellation in the quadratic form / LU determinant"]
 
@@ -209,7 +210,7 @@ def _pinned_kernel():
 
 SUBCHECKS = [
     SubCheck(name="likelihood_kernels_vs_textbook_density", strategy=kernel_case, execute=execute_kernel, pinned=_pinned_kernel,
-             budget={"quick": 500, "thorough": 20000}, shards={"quick": 4, "thorough": 8}, modes=["jit", "nojit"],
+             budget={"quick": 500, "thorough": 20000}, shards={"quick": 4, "thorough": 8}, modes=["jit", "nojit", "nonumba"],
              min_nontrivial_fraction=0.3),
     SubCheck(name="end_to_end_tables_and_result_fields", strategy=lambda: gen.e2e_config(betas=(0.0, 0.5, 2.0, 10.0, 50.0), offsets=(0.0, 0.0, 1e3, 1e5, -1e6), scales=True, scale_prob=0.3),
              execute=execute_e2e, budget={"quick": 128, "thorough": 3000}, shards={"quick": 16, "thorough": 8}, modes=E2E_MODES,
